@@ -380,9 +380,16 @@ func C16LateRegistrations() {
 	h.Activate(Activation{ServiceID: 9, ObjectID: 1})
 	streams := make([]*zzStream, 5)
 	chans := make([]Channel, 5)
+	// every connection already has what a server installs on it first: the handler of its requests (the
+	// first slot of its table); it belongs to the connection, not to any object
+	var requestHandlersClosed int32
 	for i := range chans {
 		streams[i] = newZZStream()
-		chans[i] = NewChannel(net.NewEndPoint(streams[i]), DefaultCap())
+		ep := net.NewEndPoint(streams[i])
+		ep.MakeHandler(func(hdr *net.Header) (bool, bool) { return hdr.Type == net.Call, true }, make(chan *net.Message, 4), func(err error) {
+			atomic.AddInt32(&requestHandlersClosed, 1)
+		})
+		chans[i] = NewChannel(ep, DefaultCap())
 	}
 	for i := 0; i < 3; i++ {
 		msg := zzFrame(net.Call, 9, 1, 0, uint32(10+i), zzRegisterPayload(1, 0x60, uint64(70+i)))
@@ -408,6 +415,8 @@ func C16LateRegistrations() {
 		}
 		sym.Assert(told == 1, "late-registrations/long-standing-subscriber-not-told-exactly-once")
 	}
+	// the object is gone, the connections are not: their request handlers are untouched
+	sym.Assert(atomic.LoadInt32(&requestHandlersClosed) == 0, "late-registrations/termination-of-an-object-closed-a-connection-s-request-handler")
 	sym.Reach("late-registrations-done")
 }
 
